@@ -45,13 +45,54 @@ func (m *Model) RunErrLine(s *Sink, rule string) {
 			continue
 		}
 		ok = false
+		// ownToken: v is the address of the Token field of recv — directly, or as the result of the node's own Tok()
+		// (called statically, or through the Node interface on the receiver itself), which returns that address
+		ownTok := func() bool {
+			tk := m.Method("ast", n, "Tok")
+			if tk == nil || len(tk.Blocks) != 1 {
+				return false
+			}
+			ins := tk.Blocks[0].Instrs
+			ret, isRet := ins[len(ins)-1].(*ssa.Return)
+			if !isRet || len(ret.Results) != 1 {
+				return false
+			}
+			r, p, okp := pathOf(ret.Results[0])
+			return okp && p == ".Token&" && r == ssa.Value(tk.Params[0])
+		}
+		var ownToken func(v ssa.Value, recv ssa.Value) bool
+		ownToken = func(v ssa.Value, recv ssa.Value) bool {
+			if r, p, okp := pathOf(v); okp && p == ".Token&" && r == recv {
+				return true
+			}
+			c, isC := v.(*ssa.Call)
+			if !isC {
+				return false
+			}
+			if c.Call.IsInvoke() {
+				return c.Call.Method.Name() == "Tok" && stripIface(c.Call.Value) == recv && ownTok()
+			}
+			if sc := c.Call.StaticCallee(); sc != nil && len(c.Call.Args) == 1 && sc == m.Method("ast", n, "Tok") {
+				return c.Call.Args[0] == recv && ownTok()
+			}
+			return false
+		}
 		if len(fn.Blocks) == 1 {
 			ins := fn.Blocks[0].Instrs
 			if ret, isRet := ins[len(ins)-1].(*ssa.Return); isRet && len(ret.Results) == 1 {
 				if c, isC := ret.Results[0].(*ssa.Call); isC && c.Call.StaticCallee() == errorLine {
-					if _, p, okp := pathOf(c.Call.Args[0]); okp && p == ".Token&" {
-						if r, _, _ := pathOf(c.Call.Args[0]); r == ssa.Value(fn.Params[0]) {
-							ok = true
+					ok = ownToken(c.Call.Args[0], fn.Params[0])
+				} else if isC && c.Call.StaticCallee() != nil && len(c.Call.Args) == 1 && stripIface(c.Call.Args[0]) == ssa.Value(fn.Params[0]) {
+					// a shared helper `lineOf(node) = node.Tok().ErrorLine()` handed the receiver itself
+					h := c.Call.StaticCallee()
+					if shortPkg(fnPkgPath(h)) == "ast" && len(h.Blocks) == 1 && len(h.Params) == 1 {
+						hins := h.Blocks[0].Instrs
+						if hret, isHR := hins[len(hins)-1].(*ssa.Return); isHR && len(hret.Results) == 1 {
+							if hc, isHC := hret.Results[0].(*ssa.Call); isHC && hc.Call.StaticCallee() == errorLine {
+								if tc, isTC := hc.Call.Args[0].(*ssa.Call); isTC && tc.Call.IsInvoke() && tc.Call.Method.Name() == "Tok" && tc.Call.Value == ssa.Value(h.Params[0]) {
+									ok = ownTok()
+								}
+							}
 						}
 					}
 				}
@@ -209,25 +250,27 @@ func (m *Model) RunErrLine(s *Sink, rule string) {
 		}
 		// path: newError uses p.filepath
 		okPath := false
-		for _, b := range pne.Blocks {
-			for _, in := range b.Instrs {
-				if c, ok := in.(*ssa.Call); ok && c.Call.StaticCallee() != nil && canonFnName(c.Call.StaticCallee()) == "New" && len(c.Call.Args) > 1 {
-					if c.Call.Args[0] != ssa.Value(pne.Params[1]) {
-						continue
-					}
-					if fieldPathOf(c.Call.Args[1]) == ".filepath" {
-						okPath = true
-						continue
-					}
-					// a field under another name (or of an embedded helper): it must only ever hold parser.New's path argument
-					if ld, isLd := c.Call.Args[1].(*ssa.UnOp); isLd {
-						if fa, isFA := ld.X.(*ssa.FieldAddr); isFA {
-							okPath = m.fieldHoldsOnly(fa, m.PkgFunc("parser", "New"))
-						}
-					}
+		// the fail.New call may sit in a helper newError hands its arguments to: parameters are followed back
+		m.walkInlined(pne, 2, func(in ssa.Instruction, resolve func(ssa.Value) ssa.Value, _ int) {
+			c, ok := in.(*ssa.Call)
+			if !ok || c.Call.StaticCallee() == nil || canonFnName(c.Call.StaticCallee()) != "New" || shortPkg(fnPkgPath(c.Call.StaticCallee())) != "fail" || len(c.Call.Args) < 2 {
+				return
+			}
+			if resolve(c.Call.Args[0]) != ssa.Value(pne.Params[1]) {
+				return
+			}
+			pathArg := resolve(c.Call.Args[1])
+			if fieldPathOf(pathArg) == ".filepath" {
+				okPath = true
+				return
+			}
+			// a field under another name (or of an embedded helper): it must only ever hold parser.New's path argument
+			if ld, isLd := pathArg.(*ssa.UnOp); isLd {
+				if fa, isFA := ld.X.(*ssa.FieldAddr); isFA {
+					okPath = m.fieldHoldsOnly(fa, m.PkgFunc("parser", "New"))
 				}
 			}
-		}
+		})
 		if okPath {
 			s.OK(rule, fnKey(pne)+"|line and path", m.Pos(pne.Pos()), "fail.New(line, p.filepath, ...)")
 		} else {
@@ -255,7 +298,11 @@ func (m *Model) RunErrLine(s *Sink, rule string) {
 					good := strings.HasSuffix(fieldPathOf(c.Call.Args[1]), ".ctx.AbsPath")
 					for _, lv := range m.resolveUp(c.Call.Args[0], nil, 0) {
 						lc, isL := lv.(*ssa.Call)
-						if !isL || !lc.Call.IsInvoke() || lc.Call.Method.Name() != "Line" {
+						isLine := isL && lc.Call.IsInvoke() && lc.Call.Method.Name() == "Line"
+						if isL && !lc.Call.IsInvoke() && lc.Call.StaticCallee() != nil && lc.Call.StaticCallee().Name() == "Line" && shortPkg(fnPkgPath(lc.Call.StaticCallee())) == "ast" {
+							isLine = true // Line() of a node of known type
+						}
+						if !isLine {
 							good = false
 						}
 					}
@@ -1028,5 +1075,128 @@ func (m *Model) RunProgramTables(s *Sink, rule string) {
 	}
 	if bad == 0 {
 		s.OK(rule, "ast.Program|tables written by the parser only", "-", "no store into Reserves / Inserts / Components of an existing program outside the parser")
+	}
+}
+
+// RunErrSameFile — R-ERRLINE (same file): the line and the path of an error are of the same file. A method of
+// ast.Program that links a second program into its own (a component's program into the page that uses it) and is
+// given the path of its own file builds its errors with that path; the line must then be the line of a node of its own
+// tree (the use, one of the slots passed there) and not of the other program — `prog.Line()` of the component's
+// program is a line of the component file, reported with the page's path.
+func (m *Model) RunErrSameFile(s *Sink, rule string) {
+	progT := m.namedType("ast", "Program")
+	if progT == nil {
+		s.Undecided(rule, "ast.Program", "-", "not found")
+		return
+	}
+	isProg := func(t types.Type) bool {
+		p, ok := t.(*types.Pointer)
+		return ok && types.Identical(p.Elem(), progT)
+	}
+	// the parameter a value is reached from (through loads, fields, elements, ranges)
+	var rootParam func(v ssa.Value, d int) *ssa.Parameter
+	rootParam = func(v ssa.Value, d int) *ssa.Parameter {
+		for i := 0; i < 24 && d < 6; i++ {
+			switch x := v.(type) {
+			case *ssa.Parameter:
+				return x
+			case *ssa.UnOp:
+				v = x.X
+			case *ssa.FieldAddr:
+				v = x.X
+			case *ssa.Field:
+				v = x.X
+			case *ssa.IndexAddr:
+				v = x.X
+			case *ssa.Index:
+				v = x.X
+			case *ssa.Extract:
+				v = x.Tuple
+			case *ssa.Next:
+				v = x.Iter
+			case *ssa.Range:
+				v = x.X
+			case *ssa.Lookup:
+				v = x.X
+			case *ssa.MakeInterface:
+				v = x.X
+			case *ssa.TypeAssert:
+				v = x.X
+			case *ssa.Phi:
+				var only *ssa.Parameter
+				for _, e := range x.Edges {
+					p := rootParam(e, d+1)
+					if p == nil || (only != nil && p != only) {
+						return nil
+					}
+					only = p
+				}
+				return only
+			case *ssa.Call:
+				// a getter of the node (x.Tok(), x.Line()): what it is called on
+				if x.Call.IsInvoke() {
+					v = x.Call.Value
+				} else if len(x.Call.Args) > 0 && x.Call.StaticCallee() != nil && x.Call.StaticCallee().Signature.Recv() != nil {
+					v = x.Call.Args[0]
+				} else {
+					return nil
+				}
+			default:
+				return nil
+			}
+		}
+		return nil
+	}
+	n := 0
+	for _, fn := range m.ModFns {
+		if fn.Blocks == nil || shortPkg(fnPkgPath(fn)) != "ast" || fn.Signature.Recv() == nil || len(fn.Params) < 3 || !isProg(fn.Params[0].Type()) {
+			continue
+		}
+		var other *ssa.Parameter
+		hasPath := false
+		for _, p := range fn.Params[1:] {
+			if isProg(p.Type()) {
+				other = p
+			}
+			if isStringT(p.Type()) {
+				hasPath = true
+			}
+		}
+		if other == nil || !hasPath {
+			continue
+		}
+		m.walkInlined(fn, 2, func(in ssa.Instruction, resolve func(ssa.Value) ssa.Value, _ int) {
+			c, ok := in.(*ssa.Call)
+			if !ok || c.Call.StaticCallee() == nil || shortPkg(fnPkgPath(c.Call.StaticCallee())) != "fail" || canonFnName(c.Call.StaticCallee()) != "New" || len(c.Call.Args) < 2 {
+				return
+			}
+			if _, isPar := resolve(c.Call.Args[1]).(*ssa.Parameter); !isPar {
+				return // not the path handed in
+			}
+			n++
+			key := fmt.Sprintf("%s|error #%d: line and path are of the same file", fnKey(fn), n)
+			lv := resolve(c.Call.Args[0])
+			root := rootParam(lv, 0)
+			if root != nil {
+				if r2, isP := resolve(root).(*ssa.Parameter); isP {
+					root = r2
+				}
+			}
+			switch {
+			case root == other:
+				s.Violation(rule, key, m.InstrPos(c), "%s builds an error with the path it was given for its own file and the line %s, which is a line of the other program (%s): the error names a line of one file and the path of another", fnKey(fn), valueDesc(lv), other.Name())
+			case root == fn.Params[0]:
+				s.OK(rule, key, m.InstrPos(c), "the line is that of a node of the receiver's own tree")
+			default:
+				if _, isK := lv.(*ssa.Const); isK {
+					s.OK(rule, key, m.InstrPos(c), "a constant line")
+				} else {
+					s.Undecided(rule, key, m.InstrPos(c), "the line %s of this error could not be traced to the receiver's tree or to the other program", valueDesc(lv))
+				}
+			}
+		})
+	}
+	if n < 2 {
+		s.Undecided(rule, "ast.Program linking errors", "-", "expected at least 2 errors built in a method of ast.Program that links another program in (ApplyComponent was the confirmed instance), found %d", n)
 	}
 }
